@@ -6,6 +6,7 @@ import (
 	"os"
 	"path/filepath"
 	"regexp"
+	"runtime"
 	"sort"
 	"strings"
 	"time"
@@ -20,7 +21,7 @@ import (
 var n34 = []string{"x", "index", "..", ".", "a/b", "../y", "../../z", "a.b", "x.svg", "layers", "/abs", `C:\w`, " ", "é"}
 
 // the sub-alphabet used where the full product would not fit the tier
-var n34small = []string{"x", "index", "..", "../y", "a/b", "layers", "."}
+var n34small = []string{"x", "index", "..", "../y"}
 
 var boardKinds = []string{"layers", "scenarios", "steps"}
 
@@ -88,9 +89,15 @@ func getSandbox(id string) *sandbox {
 
 // nameShape describes the board names of a tree by the most "dangerous" lexical feature present: it is
 // part of the failure class so that a finding about '..' names cannot hide a failure on ordinary names.
-func nameShape(t *btree) string {
+func nameShape(t *btree) string { return nameShapeOf(t, nil) }
+
+// nameShapeOf restricts the description to the boards listed in only (nil = all boards).
+func nameShapeOf(t *btree, only map[int]bool) string {
 	rank := 0
-	for _, b := range t.Boards {
+	for bi, b := range t.Boards {
+		if only != nil && !only[bi+1] {
+			continue
+		}
 		r := 0
 		els := strings.Split(b.Name, "/")
 		for _, e := range els {
@@ -150,10 +157,61 @@ type c34Result struct {
 	locDir     string // root-relative location directory (multi) …
 	locFile    string // … or file (single)
 	graph      *d2graph.Graph
+	trace      []ctEntry // Traced: mutating system calls on the sandbox (paths "$SB/…")
+}
+
+const c34D2Bin = "/verif/.scratch/C34/d2-traced"
+
+// c34BuildBinary (parent, thorough only) builds the real CLI for the syscall-level phase.
+func c34BuildBinary() {
+	if os.Getenv("VERIF_TIER") != "thorough" && !strings.Contains(strings.Join(os.Args, " "), "thorough") {
+		return
+	}
+	p, err := buildD2("C34")
+	if err == nil {
+		err = ensureCrashtrace()
+	}
+	if err == nil {
+		err = os.Rename(p, c34D2Bin)
+	}
+	if err != nil {
+		fmt.Fprintln(os.Stderr, "HARNESS ERROR: C34 binary build:", err)
+		os.Exit(2)
+	}
+}
+
+// c34RunTraced runs `d2 in.d2 <out>` (the built binary) in sb.work under crashtrace, watching the whole sandbox.
+func c34RunTraced(sb *sandbox, out string) (error, []ctEntry) {
+	logp := filepath.Join(filepath.Dir(sb.root), "ct.log")
+	if _, err := os.Stat(c34D2Bin); err != nil { // replay outside a full run
+		p, err := buildD2("C34")
+		if err == nil {
+			err = ensureCrashtrace()
+		}
+		if err != nil {
+			panic("harness: " + err.Error())
+		}
+		os.Rename(p, c34D2Bin)
+	}
+	empty := "/verif/.scratch/empty-path"
+	os.MkdirAll(empty, 0o755)
+	rc, outp, err := runCmd(300*time.Second, sb.work, cleanEnv(empty), crashtraceBin, "-w", sb.root, "-o", logp, "log", "--", c34D2Bin, "--bundle=false", "in.d2", out)
+	if err != nil {
+		panic("harness: traced run: " + err.Error() + "\n" + outp)
+	}
+	ents, _, err := parseCtLog(logp, sb.root)
+	if err != nil {
+		panic("harness: traced run: " + err.Error() + "\n" + outp)
+	}
+	if rc != 0 {
+		return fmt.Errorf("exit %d: %s", rc, clip(outp, 300)), ents
+	}
+	return nil, ents
 }
 
 // c34Render runs the CLI on the tree in a fresh sandbox and collects the file-system effects.
 func c34Render(id string, t *btree) *c34Result {
+	t0 := time.Now()
 	r := &c34Result{sb: getSandbox(id)}
 	src := t.source()
 	g, _, cerr := u.Compile(src)
@@ -178,9 +236,19 @@ func c34Render(id string, t *btree) *c34Result {
 	r.sb.reset(stale)
 	r.locDir, _ = filepath.Rel(r.sb.root, base)
 	r.locFile, _ = filepath.Rel(r.sb.root, outAbs)
+	t1 := time.Now()
 	before := snapshot(r.sb.root)
-	r.cliErr, _ = runCLI(r.sb.work, "in.d2", out)
+	t2 := time.Now()
+	if t.Traced {
+		r.cliErr, r.trace = c34RunTraced(r.sb, out)
+	} else {
+		r.cliErr, _ = runCLI(r.sb.work, "in.d2", out)
+	}
+	t3 := time.Now()
 	after := snapshot(r.sb.root)
+	if os.Getenv("C34_TIMING") != "" {
+		fmt.Fprintf(os.Stderr, "reset+compile %v snapshot %v cli %v snapshot %v\n", t1.Sub(t0), t2.Sub(t1), t3.Sub(t2), time.Since(t3))
+	}
 	r.diff = before.diff(after)
 	r.written = map[string]string{}
 	for _, d := range r.diff {
@@ -236,9 +304,52 @@ func c34Oracle(in string) eng.Res {
 		for _, o := range outside {
 			ops[o] = true
 		}
-		return eng.Bad(fmt.Sprintf("%s-outside-location:%s", strings.Join(sortedKeys(ops), "+"), shape),
+		// one class per most severe effect: deleted > modified > created
+		worst := "created"
+		if ops["modified"] {
+			worst = "modified"
+		}
+		if ops["deleted"] {
+			worst = "deleted"
+		}
+		return eng.Bad(fmt.Sprintf("%s-outside-location:%s", worst, shape),
 			fmt.Sprintf("d2 in.d2 %s (cli error: %v) changed paths outside the output location %s (paths relative to the sandbox root, work dir = %s):\n  %s\nsource:\n%s",
 				t.Out, r.cliErr, r.locDir, workRel, strings.Join(esc, "\n  "), t.source()))
+	}
+	if t.Traced {
+		// every mutating call must name a path inside the location (a call outside it that left no trace in the
+		// snapshot is a transient escape)
+		var bad []string
+		for _, e := range r.trace {
+			if e.Call == "close" || e.Call == "fsync" || e.Call == "fdatasync" {
+				continue
+			}
+			for _, p := range []string{e.P1, e.P2} {
+				if p == "" {
+					continue
+				}
+				rp := strings.TrimPrefix(strings.TrimPrefix(p, "$SB"), "/")
+				if !strings.HasPrefix(p, "$SB") || inside(rp) {
+					continue
+				}
+				if strings.HasPrefix(e.Call, "mkdir") && hasPrefixPath(rp, workRel) && rp != workRel && (hasPrefixPath(r.locDir, rp) || hasPrefixPath(r.locFile, rp)) {
+					continue
+				}
+				if r.multi && rp == r.locFile {
+					continue
+				}
+				// the atomic-write temp file lives next to its target: judge it by the target's name
+				if d, b := filepath.Split(rp); strings.HasPrefix(b, "tmp-") && strings.HasSuffix(b, "-N") {
+					if tp := d + strings.TrimSuffix(strings.TrimPrefix(b, "tmp-"), "-N"); inside(tp) || (r.multi && tp == r.locFile) {
+						continue
+					}
+				}
+				bad = append(bad, e.String())
+			}
+		}
+		if len(bad) > 0 {
+			return eng.Bad("transient-syscall-outside-location:"+shape, fmt.Sprintf("d2 in.d2 %s left no trace outside %s in the snapshot, but issued mutating system calls there:\n  %s\nsource:\n%s", t.Out, r.locDir, strings.Join(bad, "\n  "), t.source()))
+		}
 	}
 	outcome := fmt.Sprintf("compile=%v cli=%v", r.compileErr == nil, r.cliErr == nil)
 	if r.compileErr == nil && r.cliErr == nil {
@@ -257,6 +368,24 @@ func c34Oracle(in string) eng.Res {
 			kind := "wrong-content"
 			if len(got) < len(want) {
 				kind = "fewer-files-than-boards"
+				// attribute to the boards whose file is missing
+				have := map[string]int{}
+				for _, g := range got {
+					have[g]++
+				}
+				missing := map[int]bool{}
+				for i := len(t.Boards); i >= 0; i-- {
+					if b := findBoard(r.graph, t.path(i)); b != nil && !b.IsFolderOnly {
+						if ms := boardMarkers(b); have[ms] > 0 {
+							have[ms]--
+						} else {
+							missing[i] = true
+						}
+					}
+				}
+				if len(missing) > 0 && !missing[0] {
+					shape = nameShapeOf(&t, missing)
+				}
 			} else if len(got) > len(want) {
 				kind = "more-files-than-boards"
 			}
@@ -317,7 +446,9 @@ func init() {
 		},
 		QuickBudget: 150 * time.Second, ThoroughBudget: 22 * time.Minute, HangBound: 150 * time.Second,
 		Oracles: map[string]eng.Oracle{"render": c34Oracle},
+		Pre:     c34BuildBinary,
 		Run: func(w *eng.W) {
+			runtime.GOMAXPROCS(2) // 16 worker processes: keep each one's GC and goja threads from oversubscribing the machine
 			defer func() {
 				if workerSandbox != nil {
 					os.RemoveAll(filepath.Dir(workerSandbox.root))
@@ -363,6 +494,21 @@ func init() {
 				})
 				return
 			}
+			w.Phase("syscall-level: built binary under crashtrace, boards<=1 x N34 x {out.svg,dir/out.svg}", func() {
+				for n := 0; n <= 1; n++ {
+					enumTrees(n, boardKinds, n34, func(t *btree) {
+						for _, o := range []string{"out.svg", "dir/out.svg"} {
+							if !w.Mine() {
+								continue
+							}
+							c := *t
+							c.Out, c.Traced = o, true
+							b, _ := json.Marshal(&c)
+							w.EvalMine("render", string(b))
+						}
+					})
+				}
+			})
 			perFirst("boards=2 x N34 x outputs x root-empty", 2, n34, func(t *btree) {
 				for _, o := range outs {
 					c34Eval(w, t, o, false)
